@@ -60,7 +60,7 @@ theorem lt_is_lexicographic (T : Tables) (a b : Str) : lt T a b = (cmpInc T a b 
 
 /-! ### sorting: the demanded order does not depend on the written order -/
 
-theorem le_trans' (T : Tables) (a b c : Str) (hab : le T a b = true) (hbc : le T b c = true) :
+theorem le_is_trans (T : Tables) (a b c : Str) (hab : le T a b = true) (hbc : le T b c = true) :
     le T a c = true := by
   simp only [le, Bool.not_eq_true', lt_false_iff] at *
   intro h
@@ -73,7 +73,7 @@ theorem le_trans' (T : Tables) (a b c : Str) (hab : le T a b = true) (hbc : le T
   rw [OrientedCmp.gt_of_lt h] at h3
   simp at h3
 
-theorem le_total' (T : Tables) (a b : Str) : (le T a b || le T b a) = true := by
+theorem le_is_total (T : Tables) (a b : Str) : (le T a b || le T b a) = true := by
   simp only [le, Bool.or_eq_true, Bool.not_eq_true']
   by_cases h : lt T b a = true
   · exact Or.inr (lt_asymm T h)
@@ -83,20 +83,20 @@ theorem sort_perm (T : Tables) (xs : List Str) : (sort T xs).Perm xs := List.mer
 
 /-- the sorted list is ascending: no element is demanded before an earlier one -/
 theorem sort_sorted (T : Tables) (xs : List Str) : (sort T xs).Pairwise (fun a b => lt T b a = false) := by
-  have h := List.pairwise_mergeSort (le_trans' T) (le_total' T) xs
+  have h := List.pairwise_mergeSort (le_is_trans T) (le_is_total T) xs
   exact h.imp (fun hab => by simpa [le] using hab)
 
 /-- permutations of the same includes sort to the same list -/
 theorem sort_unique (T : Tables) {xs ys : List Str} (h : xs.Perm ys) : sort T xs = sort T ys := by
-  have hx := List.pairwise_mergeSort (le_trans' T) (le_total' T) xs
-  have hy := List.pairwise_mergeSort (le_trans' T) (le_total' T) ys
+  have hx := List.pairwise_mergeSort (le_is_trans T) (le_is_total T) xs
+  have hy := List.pairwise_mergeSort (le_is_trans T) (le_is_total T) ys
   refine List.Perm.eq_of_pairwise (le := fun a b => le T a b = true) ?_ hx hy
     ((sort_perm T xs).trans (h.trans (sort_perm T ys).symm))
   intro a b _ _ hab hba
   exact (incomp_iff_eq T a b).mp ⟨by simpa [le] using hba, by simpa [le] using hab⟩
 
 theorem sort_idem (T : Tables) (xs : List Str) : sort T (sort T xs) = sort T xs :=
-  List.mergeSort_of_pairwise (List.pairwise_mergeSort (le_trans' T) (le_total' T) xs)
+  List.mergeSort_of_pairwise (List.pairwise_mergeSort (le_is_trans T) (le_is_total T) xs)
 
 /-- a list the linter accepts (equal to its sorted self) is the only accepted arrangement -/
 theorem accepted_order_unique (T : Tables) {xs ys : List Str} (h : xs.Perm ys)
@@ -190,5 +190,151 @@ theorem propose_no_first_complaint (T : Tables) (own : Str) (oh : List Str → S
   unfold firstComplaint
   rw [hmap, hsort, hhead]
   simp
+
+/-! ### the indent fixer (HeaderParser.fix_indents / report_indents) -/
+
+open SymbolVerif.Lint.Indent in
+/-- `--fix-indents` changes only preprocessor lines: the number of lines is kept, and a changed line is
+    one the parse recorded — a line matching the include or the directive pattern, or the line after
+    a line that ends in a backslash (a continuation line). -/
+theorem fix_touches_only_pp_lines (known : List Indent.Str) (ls : List Indent.Str) (fs : List Fix)
+    (h : parse known ls = some fs) :
+    (fixLines fs ls).length = ls.length ∧
+    ∀ i, (fixLines fs ls)[i]? ≠ ls[i]? → ∃ f ∈ fs, f.lineno = i + 1 ∧ RecordedAt ls false 1 f := by
+  refine ⟨fixGo_length ls fs false 1, fun i hi => ?_⟩
+  by_cases hex : ∃ f ∈ fs, f.lineno = 1 + i
+  · obtain ⟨f, hf, hl⟩ := hex
+    exact ⟨f, hf, by omega, parseGo_records h f hf⟩
+  · exfalso
+    apply hi
+    exact fixGo_untouched ls fs false 1 i (fun f hf hl => hex ⟨f, hf, hl⟩)
+
+open SymbolVerif.Lint.Indent in
+/-- after `--fix-indents` the linter has no `indentedPreprocessor` complaint about the file -/
+theorem fix_no_complaint (known : List Indent.Str) (ls : List Indent.Str) (fs fs' : List Fix)
+    (h1 : parse known ls = some fs) (h2 : parse known (fixLines fs ls) = some fs') :
+    report fs' = [] :=
+  reportGo_of_stripped fs' (parse_fix_stripped known ls false false 1 fs false fs' (fun h => h) h1 h2)
+
+open SymbolVerif.Lint.Indent in
+/-- `fix_idem` does NOT hold for the code as written: a conforming file (no complaint) with a
+    three-line macro is changed by the fixer, and changed again by a second pass (every continuation
+    line after the first gains a tab per pass). -/
+theorem fix_not_idem :
+    ∃ (ls : List Indent.Str) (fs fs' : List Fix),
+      parse Generated.C20.ppDirectives ls = some fs ∧ report fs = [] ∧
+      parse Generated.C20.ppDirectives (fixLines fs ls) = some fs' ∧
+      fixLines fs ls ≠ ls ∧ fixLines fs' (fixLines fs ls) ≠ fixLines fs ls := by
+  refine ⟨["#define A(X) \\".toList, "\tfoo(X); \\".toList, "\tbar(X)".toList],
+    [⟨.ppline, 1, "#define A(X) \\".toList⟩, ⟨.continuation, 2, "\tfoo(X); \\".toList⟩,
+      ⟨.continuation, 3, "\tbar(X)".toList⟩],
+    [⟨.ppline, 1, "#define A(X) \\".toList⟩, ⟨.continuation, 2, "\tfoo(X); \\".toList⟩,
+      ⟨.continuation, 3, "\t\tbar(X)".toList⟩], ?_, ?_, ?_, ?_, ?_⟩ <;> decide +kernel
+
+open SymbolVerif.Lint.Indent in
+/-- `fix_idem` under a hypothesis on the once-fixed file: if there every continuation line directly
+    follows its directive line and carries one tab (`contSettled`; this excludes macros with two or
+    more continuation lines, and a directive whose backslash was followed by blanks), a second pass
+    changes nothing.  Missing for the full statement: it is false (`fix_not_idem`). -/
+theorem fix_idem_partial (known : List Indent.Str) (ls : List Indent.Str) (fs fs' : List Fix)
+    (h1 : parse known ls = some fs) (h2 : parse known (fixLines fs ls) = some fs')
+    (hc : contSettled false fs') :
+    fixLines fs' (fixLines fs ls) = fixLines fs ls :=
+  fixGo_of_settled (fixLines fs ls) false 1 fs' false h2
+    (settled_of_stripped fs' false
+      (parse_fix_stripped known ls false false 1 fs false fs' (fun h => h) h1 h2) hc)
+
+open SymbolVerif.Lint.Indent in
+/-- a file whose directive lines are stripped and whose continuation lines are settled is left
+    exactly as it is -/
+theorem fix_fixed_point (known : List Indent.Str) (ls : List Indent.Str) (fs : List Fix)
+    (h : parse known ls = some fs) (hs : settledGo false fs) : fixLines fs ls = ls :=
+  fixGo_of_settled ls false 1 fs false h hs
+
+/-! ### the temp-file protocol -/
+
+open SymbolVerif.Lint.Indent in
+/-- When writing works, the pass ends with the fixed contents under the original path, no
+    `<path>.tmp`, and every other file as it was.  (If a file `<path>.tmp` existed before, it is
+    gone afterwards: the protocol clobbers it.) -/
+theorem fix_leaves_no_file (known : List Indent.Str) (fs : FS) (path content : Indent.Str) (fixes : List Fix)
+    (hget : fs.get path = some content) (hparse : parse known (splitLines content) = some fixes)
+    (hne : fixes.isEmpty = false) :
+    (runFix known true fs path).2 = .rewritten ∧
+    (runFix known true fs path).1.get path
+      = some (joinLines (fixLines fixes (splitLines (universalNewlines content)))) ∧
+    (runFix known true fs path).1.get (tmpOf path) = none ∧
+    ∀ q, q ≠ path → q ≠ tmpOf path → (runFix known true fs path).1.get q = fs.get q := by
+  have hr : runFix known true fs path =
+      ((((((fs.put (tmpOf path) []).put (tmpOf path)
+        (joinLines (fixLines fixes (splitLines (universalNewlines content))))).remove path).remove
+          (tmpOf path)).put path (joinLines (fixLines fixes (splitLines (universalNewlines content))))),
+        .rewritten) := by
+    simp [runFix, hget, hparse, hne]
+  rw [hr]
+  refine ⟨rfl, FS.get_put_same _ _ _, ?_, fun q hq1 hq2 => ?_⟩
+  · rw [FS.get_put_other _ _ (tmpOf_ne path), FS.get_remove_same]
+  · rw [FS.get_put_other _ _ hq1, FS.get_remove_other _ hq2, FS.get_remove_other _ hq1,
+      FS.get_put_other _ _ hq2, FS.get_put_other _ _ hq2]
+
+open SymbolVerif.Lint.Indent in
+/-- The pinned code: `outf.write` raises on the first line (bytes to a text handle).  The pass
+    aborts with the original untouched and an empty `<path>.tmp` left behind. -/
+theorem fix_crash_leaves_tmp (known : List Indent.Str) (fs : FS) (path content : Indent.Str) (fixes : List Fix)
+    (hget : fs.get path = some content) (hparse : parse known (splitLines content) = some fixes)
+    (hne : fixes.isEmpty = false) (hlines : (splitLines (universalNewlines content)).isEmpty = false) :
+    (runFix known false fs path).2 = .writeFailed ∧
+    (runFix known false fs path).1.get path = some content ∧
+    (runFix known false fs path).1.get (tmpOf path) = some [] ∧
+    ∀ q, q ≠ tmpOf path → (runFix known false fs path).1.get q = fs.get q := by
+  have hl : (fixLines fixes (splitLines (universalNewlines content))).isEmpty = false := by
+    have := fixGo_length (splitLines (universalNewlines content)) fixes false 1
+    cases hs : splitLines (universalNewlines content) with
+    | nil => rw [hs] at hlines; simp at hlines
+    | cons a b =>
+      rw [hs] at this
+      cases hf : fixLines fixes (a :: b) with
+      | nil => unfold fixLines at hf; rw [hf] at this; simp at this
+      | cons _ _ => rfl
+  have hr : runFix known false fs path = (fs.put (tmpOf path) [], .writeFailed) := by
+    simp [runFix, hget, hparse, hne, hl]
+  rw [hr]
+  refine ⟨rfl, ?_, FS.get_put_same _ _ _, fun q hq => FS.get_put_other _ _ hq⟩
+  rw [FS.get_put_other _ _ (tmpOf_ne path).symm, hget]
+
+open SymbolVerif.Lint.Indent in
+/-- nothing is written when the parse recorded nothing -/
+theorem fix_untouched_without_fixes (known : List Indent.Str) (writeOk : Bool) (fs : FS) (path content : Indent.Str)
+    (hget : fs.get path = some content) (hparse : parse known (splitLines content) = some []) :
+    runFix known writeOk fs path = (fs, .untouched) := by
+  simp [runFix, hget, hparse]
+
+/-! ### instances on the tables of the working tree -/
+
+/-- the shipped comparator is a strict weak order with transitive incomparability -/
+theorem shipped_strict_weak_order (a b c : Str) :
+    lt Generated.C20.tables a a = false ∧
+    (lt Generated.C20.tables a b = true → lt Generated.C20.tables b a = false) ∧
+    (lt Generated.C20.tables a b = true → lt Generated.C20.tables b c = true → lt Generated.C20.tables a c = true) ∧
+    (incomp Generated.C20.tables a b → incomp Generated.C20.tables b c → incomp Generated.C20.tables a c) :=
+  ⟨lt_irrefl _ a, lt_asymm _, lt_trans _, incomp_trans _⟩
+
+/-- sanity of the shipped tables: every first-level key is a quoted path part, so the local stage can
+    only fire for `"`-includes; prefixes of the system stages all start with `<` -/
+theorem shipped_tables_shape :
+    (Generated.C20.tables.prio1.all fun kv => kv.1.head? == some '"') = true ∧
+    (Generated.C20.tables.externalPrefixes.all fun p => p.head? == some '<') = true ∧
+    (Generated.C20.tables.cppPrefixes.all fun p => p.head? == some '<') = true := by
+  decide +kernel
+
+/-! ### non-vacuity -/
+
+example : lt Generated.C20.tables "<vector>".toList "<stdio.h>".toList = true := by decide +kernel
+example : lt Generated.C20.tables "<boost/x.h>".toList "<vector>".toList = true := by decide +kernel
+example : lt Generated.C20.tables "\"catapult/model/Block.h\"".toList "\"catapult/types.h\"".toList = true := by
+  decide +kernel
+example (a b : Str) : sort Generated.C20.tables [a, b] = sort Generated.C20.tables [b, a] :=
+  sort_unique _ (List.Perm.swap b a [])
+example : Indent.report [⟨.ppline, 3, "\t#include <x>".toList⟩] = [(3, .alignColumn0)] := by decide +kernel
 
 end SymbolVerif.C20
